@@ -3,8 +3,17 @@
   requests the announced length from the allocator (`make([]byte, l)`, `l ≤ MaxSlice`) before a
   single body byte has been read.  Outcomes are those of XMT.Codec (`decBytes streamPrim`), the
   allocation is computed next to them.
+
+  Index / reslice expressions.  Unlike the in-memory reader (XMT.Decode), the stream reader never
+  indexes a buffer with a value taken from the wire: `r.buf[0:1]`, `r.buf[0:2]`, `r.buf[0:4]`,
+  `r.buf[:]`, `_ = r.buf[7]`, `r.buf[k]` are constant expressions on the reader's own `[8]byte`
+  array (checked by the compiler).  The one reslice with a run-time bound is `b[:n]` at the end of
+  `(*reader).Bytes()`, `b = make([]byte, l)` and `n` the count `io.ReadFull(r.r, b)` returned; it is
+  modelled below as a panicking operation (`bodyP`) and proved in range for every stream
+  (`bodyP_eq`): `n ≤ l` because `ReadFull` hands out at most `len(b)` bytes (`readFull_fst`).
 -/
 import XMT.Codec
+import XMT.CodecLemmas
 import XMT.Decode
 
 namespace XMT.Decode.Stream
@@ -36,5 +45,45 @@ theorem bytesAlloc_le (s : Stream) : bytesAlloc s ≤ Facts.maxSlice := by
   split
   · split <;> omega
   · omega
+
+/-! ### the reslice `b[:n]` of `(*reader).Bytes()` -/
+
+/-- `b[:n]` for `b = make([]byte, l)` whose first `n` bytes are `got`; `none` = "slice bounds out
+of range" -/
+def prefixP (l : Nat) (got : Bytes) : Option Bytes :=
+  if got.length > l then none else some got
+
+/-- the tail of `(*reader).Bytes()` with the reslice evaluated as Go does (`none` = panic):
+```
+b := make([]byte, l)
+if n, err = io.ReadFull(r.r, b); err != nil { switch { case err == io.EOF: case err == ErrLimit: default: return nil, err } }
+if uint64(n) != l { return b[:n], io.EOF }
+return b, nil
+``` -/
+def bodyP (l : Nat) (s : Stream) : Option (Except Codec.Err (Bytes × Stream)) :=
+  let r := readFull l s
+  if r.1.length = l then some (.ok r)
+  else match prefixP l r.1 with
+    | none => none
+    | some _ => some (.error (shortErr r.1))
+
+/-- a reslice rule that REQUIRES the bound -/
+theorem prefixP_some {l : Nat} {got : Bytes} (h : got.length ≤ l) : prefixP l got = some got := by
+  have : ¬ (got.length > l) := by omega
+  simp only [prefixP, this, if_false]
+
+/-- `io.ReadFull` never reports more bytes than the buffer holds -/
+theorem readFull_len_le (l : Nat) (s : Stream) : (readFull l s).1.length ≤ l := by
+  rw [readFull_fst]
+  exact List.length_take_le _ _
+
+/-- for EVERY stream the reslice is in range: the panicking form is the `body` of `streamPrim` -/
+theorem bodyP_eq (l : Nat) (s : Stream) : bodyP l s = some (streamPrim.body l s) := by
+  unfold bodyP
+  simp only [prefixP_some (readFull_len_le l s), streamPrim]
+  split <;> rfl
+
+/-- and the bound is what it rests on: a count above `len(b)` would panic -/
+example : prefixP 2 [1, 2, 3] = none := by decide
 
 end XMT.Decode.Stream
